@@ -399,7 +399,8 @@ fn headers_to_canonicalized_string(headers: &hyper::HeaderMap) -> String {
 
     for (key, value) in headers.iter() {
         let key = key.to_string();
-        let value = value.to_str().unwrap().to_string();
+        // header values may carry obs-text (bytes >= 0x80): never unwrap a failed conversion
+        let value = String::from_utf8_lossy(value.as_bytes()).to_string();
         let key_lower_case = key.to_lowercase();
         map.insert(key_lower_case, (key, value));
     }
